@@ -230,6 +230,21 @@ int main(int argc, char **argv) {
       }
     });
 
+    J.attributeObject("enums", [&] {
+      std::set<std::string> seen;
+      for (auto *t : dif.types()) {
+        auto *ct = dyn_cast<DICompositeType>(t);
+        if (!ct || ct->getTag() != dwarf::DW_TAG_enumeration_type) continue;
+        for (auto *e : ct->getElements()) {
+          if (auto *en = dyn_cast<DIEnumerator>(e)) {
+            std::string n = en->getName().str();
+            if (!seen.insert(n).second) continue;
+            J.attribute(n, en->getValue().getSExtValue());
+          }
+        }
+      }
+    });
+
     J.attributeObject("globals", [&] {
       for (GlobalVariable &g : M->globals()) {
         if (g.getName().startswith("llvm.")) continue;
@@ -285,6 +300,7 @@ int main(int argc, char **argv) {
             J.attribute("file", sp->getFilename());
             J.attribute("dir", sp->getDirectory());
             J.attribute("line", (int64_t)sp->getLine());
+            J.attribute("srcname", sp->getName());
           }
           J.attribute("internal", F.hasLocalLinkage());
           J.attribute("ret", typeStr(F.getReturnType()));
